@@ -54,6 +54,13 @@ CLAIMED["C02"] = ("Bounded symbolic model checking of everything the encoders wr
          "Hostile strings of up to 2 (quick) / 3 (thorough) bytes; longer strings are outside the claim (the escaper is byte-local, but that is an argument, not something this check decides).",
          "7 C02")
 
+CLAIMED["C03"] = ("Bounded symbolic model checking of the library's own gob code - gobEncodeItem / gobDecodeItem, every map<Type>Properties / unmap<Type>Properties, the per-type GobEncode/GobDecode and MarshalBinary/UnmarshalBinary - with encoding/gob replaced by a model (opaque injective codec with gob's wire-kind compatibility): the same (type, field, shape) cells as C01 generated from the current struct definitions, compared field by field with only the unset/empty normal form; instants with nanoseconds and a fixed zone, negative numbers and durations, top-level IRI, IRIs, item list and Link; per-type methods agree with the package functions.",
+         "RELATIVE TO THE GOB MODEL: what is decided is names, guards, dispatch and shape sniffing in the package, not the gob wire format (encoding/gob is reflection-driven and not interpreted). The model's success matrix (decode succeeds iff wire kinds agree) was measured against real gob in the design spike and every completed path is replayed natively against real gob (traces_validated_against_impl).",
+         "7 C03, 5")
+CLAIMED["C06"] = ("Bounded symbolic model checking of both codecs on natural-language text: name, summary, content, preferredUsername and source content, as single untagged, single tagged and two-language values (text in first or second position), through the JSON encoder/decoder (real stringBytes, fastjson) and through the gob code (gob model), with 1 byte (full matrix) and 2 bytes (reduced matrix; full in thorough; 3 bytes reduced in thorough) of arbitrary valid UTF-8 (utf8.Valid interpreted as the assumption), a backslash followed by any ASCII byte inside other text, texts that are JSON themselves (numbers with symbolic digits, literals, arrays, objects, quoted strings), and fixed HTML / control / astral / escape-looking texts: the decoded text is byte-for-byte the encoded one, map tags and the other entry are preserved.",
+         "Texts longer than the stated symbolic lengths are outside the claim. Gob half is relative to the gob model (see C03).",
+         "7 C06")
+
 NOT_YET = {}
 
 def main():
